@@ -364,6 +364,10 @@ class Gen:
             self.syms = [ctx.symbol(n, ftype) for n in names]
         self.pool_f = list(self.syms)
         self.pool_b = []
+        # a complex symbol now and then: real-valued terms abs(w), real(w), imag(w), real(w*w) ... enter the float expressions
+        self.csym = None
+        if rnd.random() < 0.3 and not isinstance(ftype, (list, tuple)) and ftype in ("float32", "float64"):
+            self.csym = ctx.symbol("w", {"float32": "complex64", "float64": "complex128"}[ftype])
 
     def const(self):
         return self.ctx.constant(self.rnd.choice(FLOAT_CONSTS), self.rnd.choice(self.syms))
@@ -372,6 +376,10 @@ class Gen:
         rnd, ctx = self.rnd, self.ctx
         if depth <= 0 or rnd.random() < 0.15:
             c = rnd.random()
+            if self.csym is not None and c < 0.2:
+                w = self.csym
+                return rnd.choice([lambda: ctx.absolute(w), lambda: ctx.real(w), lambda: ctx.imag(w), lambda: ctx.real(w * w), lambda: ctx.absolute(w * w), lambda: ctx.imag(ctx.conjugate(w)),
+                                   lambda: ctx.absolute(w) * rnd.choice(self.syms), lambda: ctx.absolute(ctx.conjugate(w))])()
             if c < 0.55:
                 return rnd.choice(self.syms)
             if c < 0.8 and self.pool_f:
@@ -608,7 +616,16 @@ def task_programs(params, rec):
             # (KF-C04-mixed-precision-retyping); the whole-program float comparison would only repeat it
             rec.count("programs:mixed-precision-judged-by-the-step-monitor-only")
             continue
-        judge.judge(e, e2, "program", "whole:" + (getattr(tgt, "__name__", "rewrite-only").split(".")[-1] if tgt is not None else "rewrite-only"))
+        e_before = e
+        if tgt is not None:
+            # "alone or after a target's expansion pass": the expansion itself (e.g. abs of a complex value by the package's own hypot algorithm)
+            # is not the rewriter's doing - the reference for the whole program is the expanded, not yet rewritten graph
+            try:
+                with contextlib.redirect_stdout(io.StringIO()):
+                    e_before = e.rewrite(tgt)
+            except Exception:
+                e_before = e
+        judge.judge(e_before, e2, "program", "whole:" + (getattr(tgt, "__name__", "rewrite-only").split(".")[-1] if tgt is not None else "rewrite-only"))
         if i < 3:
             rec.sample(dict(before=describe(e), after=describe(e2), target=getattr(tgt, "__name__", None), deep_first=deep_first))
     contracts.detach_all()
